@@ -1125,6 +1125,39 @@ theorem prefix_contains_iff (ip a : IP) (bits : Nat) (hip : ip.length = 16) (ha 
   rw [e, eqUnder_iff_bits bits ip a 0 (by rw [hip, ha])]
   simp [hip]
 
+/-- **An upstream AAAA is excluded exactly when it lies in a configured
+network, bit for bit** — for every `exclude_aaaa_networks` length, those that
+are not a whole number of octets (fc00::/7, fe80::/10, a /33) included: an
+address outside the real network is never stripped because it shares the
+network's leading bytes. -/
+theorem exclude_aaaa_iff_bits (c : Cfg) (a : IP) (ha : a.length = 16) (hma : isMapped a = false)
+    (hn : ∀ n ∈ c.exAAAA, n.v6 = true ∧ n.ip.length = 16 ∧ isMapped n.ip = false) :
+    c.shouldExcludeAAAA a = true ↔
+      ∃ n ∈ c.exAAAA, ∀ j, j < 128 → j < n.bits → bitOf n.ip j = bitOf a j := by
+  unfold Cfg.shouldExcludeAAAA
+  rw [List.any_eq_true]
+  constructor
+  · rintro ⟨n, hmem, hc⟩
+    obtain ⟨hv, hl, hm⟩ := hn n hmem
+    refine ⟨n, hmem, ?_⟩
+    have : n = ⟨n.ip, n.bits, true⟩ := by cases n; simp_all
+    rw [this] at hc
+    exact (v6_net_contains_iff n.ip a n.bits hl ha hm hma).mp hc
+  · rintro ⟨n, hmem, hb⟩
+    obtain ⟨hv, hl, hm⟩ := hn n hmem
+    refine ⟨n, hmem, ?_⟩
+    have : n = ⟨n.ip, n.bits, true⟩ := by cases n; simp_all
+    rw [this]
+    exact (v6_net_contains_iff n.ip a n.bits hl ha hm hma).mpr hb
+
+-- fc00::/7 excludes fd00::1, not 2001:db8::1; 2001:db8:8000::/33 excludes neither 2001:db8:1::1 nor 2001:db8:7fff:ffff::1
+example : ({ exAAAA := [⟨[0xfc, 0, 0, 0, 0, 0, 0, 0, 0, 0, 0, 0, 0, 0, 0, 0], 7, true⟩] } : Cfg).shouldExcludeAAAA
+    [0xfd, 0, 0, 0, 0, 0, 0, 0, 0, 0, 0, 0, 0, 0, 0, 1] = true := by decide
+example : ({ exAAAA := [⟨[0xfc, 0, 0, 0, 0, 0, 0, 0, 0, 0, 0, 0, 0, 0, 0, 0], 7, true⟩] } : Cfg).shouldExcludeAAAA
+    [0x20, 1, 0xd, 0xb8, 0, 0, 0, 0, 0, 0, 0, 0, 0, 0, 0, 1] = false := by decide
+example : ({ exAAAA := [⟨[0x20, 1, 0xd, 0xb8, 0x80, 0, 0, 0, 0, 0, 0, 0, 0, 0, 0, 0], 33, true⟩] } : Cfg).shouldExcludeAAAA
+    [0x20, 1, 0xd, 0xb8, 0x7f, 0xff, 0xff, 0xff, 0, 0, 0, 0, 0, 0, 0, 1] = false := by decide
+
 -- 192.168.0.0/23 contains 192.168.1.255, not 192.168.2.0; 100.64.0.0/10 boundary
 example : (⟨[192, 168, 0, 0], 23, false⟩ : Net).contains [192, 168, 1, 255] = true := by decide
 example : (⟨[192, 168, 0, 0], 23, false⟩ : Net).contains [192, 168, 2, 0] = false := by decide
